@@ -108,7 +108,15 @@ func c17Class(kind string) string {
 	return "rename"
 }
 
+// c17BareWelcome: the welcome of the session being run ends in free text instead of the client's mask (the mask is
+// a courtesy of some servers, not part of the numeric). Set per run from the configuration: sessions of the nick
+// "w9" get the bare wording, sessions of "bob" the one with the mask.
+var c17BareWelcome bool
+
 func c17Welcome(nick string) string {
+	if c17BareWelcome {
+		return ":srv 001 " + nick + " :Welcome to the Example Internet Relay Chat Network"
+	}
 	return ":srv 001 " + nick + " :Welcome " + nick + "!ident@host"
 }
 
@@ -253,6 +261,8 @@ type c17Res struct {
 
 // c17Run plays one script against a real client and returns the first oracle failure (nil: all held).
 func c17Run(cfg c17Cfg, script []c17Step) *c17Res {
+	c17BareWelcome = cfg.Nick != "bob"
+	defer func() { c17BareWelcome = false }()
 	gen := c17Gen(cfg.Gen)
 	var res *c17Res
 	fail := func(step int, oracle, msg string) {
@@ -800,7 +810,7 @@ func c17ReaderScenario(tracking bool, welcomeNick string) *explore.Scenario {
 func init() {
 	Register(&Prop{
 		ID:   "C17",
-		Rule: "the MODEL (server's view: phase, current and previous nick, outstanding request, collisions so far) is walked breadth-first over the alphabet {433 for the requested nick / for another nick, 001 to the requested / another nick, client Nick(x) confirmed / refused / refused and the follow-up confirmed, forced NICK, other users' NICK between names equal to, prefixes of and one character from the client's current and previous nick; new nicks include the current one with the case of its first letter flipped}, keeping the shortest script P (shorter than the tier's length: quick 4, thorough 6; at most 3 collisions before the welcome) per distinct model state; for every such state the real client is run, from a fresh connect each time, on P+c for every view-changing symbol c, on P followed by all view-preserving symbols in a row (judged after each), and on P + that row + c; x tracking on/off x generator {default, s+\"^\", constant \"zed\"; s+\"^\" installed through Config() after Client() returned} x nick {bob, w9} x (tracked only) Me() read at every step / only after the last step. One case = one judged (configuration, script); failures are minimised by dropping view-preserving steps. Family me-reader: a task that is not a handler reads Config().Me and Me() in a loop while a collision, the welcome (to the requested nick, to the nick the generator made, to another one) and two renames are processed, every schedule within two deviations. Family default-generator: DefaultNewNick on all 256 last bytes x 12 prefixes (ASCII, Latin-1 / invalid UTF-8 / multi-byte)",
+		Rule: "the MODEL (server's view: phase, current and previous nick, outstanding request, collisions so far) is walked breadth-first over the alphabet {433 for the requested nick / for another nick, 001 to the requested / another nick, client Nick(x) confirmed / refused / refused and the follow-up confirmed, forced NICK, other users' NICK between names equal to, prefixes of and one character from the client's current and previous nick; new nicks include the current one with the case of its first letter flipped}, keeping the shortest script P (shorter than the tier's length: quick 4, thorough 6; at most 3 collisions before the welcome) per distinct model state; for every such state the real client is run, from a fresh connect each time, on P+c for every view-changing symbol c, on P followed by all view-preserving symbols in a row (judged after each), and on P + that row + c; x tracking on/off x generator {default, s+\"^\", constant \"zed\"; s+\"^\" installed through Config() after Client() returned} x nick {bob, w9 (whose welcome ends in free text instead of the mask)} x (tracked only) Me() read at every step / only after the last step. One case = one judged (configuration, script); failures are minimised by dropping view-preserving steps. Family me-reader: a task that is not a handler reads Config().Me and Me() in a loop while a collision, the welcome (to the requested nick, to the nick the generator made, to another one) and two renames are processed, every schedule within two deviations. Family default-generator: DefaultNewNick on all 256 last bytes x 12 prefixes (ASCII, Latin-1 / invalid UTF-8 / multi-byte)",
 		Assumptions: []string{
 			"a 433 naming a nick the client does not hold leaves the server's view unchanged; the NICK the client sends in answer stays outstanding (the script may later address the welcome to it)",
 			"'character' in 'differs only in its last character' is a byte (IRC nicks are byte strings); DefaultNewNick(\"\") is only required not to panic",
